@@ -1,17 +1,19 @@
-"""C19 finding: a database at the current schema without a stamp (here: one just created by
-open_database/create_all, committed by the user) gets object.latent_variables_for_id added when reopened."""
+"""C19 finding (known, not repairable without rewriting released steps): a database at the current schema
+WITHOUT a revision stamp -- what create_all of every version before 8b3dae9 produced -- gets
+object.latent_variables_for_id added when it is reopened."""
 import os, shutil, sqlite3, sys, tempfile
 REPO = os.environ.get("VERIF_REPO", "/repo"); sys.path.insert(0, REPO)
 import autofit as af; from autoconf import conf
 tmp = tempfile.mkdtemp(); conf.instance.push(new_path="/verif/harness/config", output_path=tmp)
 import autofit.database as db
-path = os.path.join(tmp, "new.sqlite")
+path = os.path.join(tmp, "legacy.sqlite")
 def cols():
     con = sqlite3.connect(path); c = [r[1] for r in con.execute("PRAGMA table_info('object')")]; con.close(); return c
-s = db.open_database(path); s.add(db.Fit(id="a")); s.commit(); s.close(); s.get_bind().dispose()   # creates the file
+s = db.open_database(path); s.add(db.Fit(id="a")); s.commit(); s.close(); s.get_bind().dispose()   # current schema
+con = sqlite3.connect(path); con.execute("DROP TABLE IF EXISTS revision"); con.commit(); con.close()  # ... as an older version left it: no stamp
 before = cols()
-s = db.open_database(path); s.add(db.Fit(id="b")); s.commit(); s.close(); s.get_bind().dispose()   # first reopen
+s = db.open_database(path); s.close(); s.get_bind().dispose()                                       # first reopen
 after = cols(); shutil.rmtree(tmp)
-print("object columns after creation:", before); print("object columns after reopen:  ", after)
-assert after != before, "reopen changed nothing (defect repaired for new files)"
-print("DEFECT: reopening a database created by the current code changed its schema")
+print("object columns before the reopen:", before); print("object columns after the reopen: ", after)
+assert after != before, "reopen changed nothing (defect gone)"
+print("DEFECT: reopening an unstamped database at the current schema added a column of an already applied step")
